@@ -148,3 +148,660 @@ Proof.
   destruct (0 <=? v) eqn:C; destruct (v * 1000000 <=? max_req) eqn:D; cbn [andb];
   rewrite ?C, ?D; cbn [andb]; try reflexivity; exfalso; lia.
 Qed.
+
+(* ================================================================== part 2: the channel machine *)
+From Coq Require Import Permutation Arith.
+From NSQV Require Import proofs.HeapProofs.
+
+Definition ids_if (l : list msg) : list Z := map m_id l.
+Definition vals (q : pq) : list Z := map snd (keys (arr q)).
+
+(* the in-flight half and the deferred half of the invariant: each heap is well-formed
+   and holds exactly the ids of its map, once each *)
+Definition InvIF (c : chan) : Prop :=
+  hwf (c_ifq c) /\ cap_ok (c_ifq c) /\ NoDup (ids_if (c_inflight c)) /\
+  Permutation (vals (c_ifq c)) (ids_if (c_inflight c)).
+Definition InvDF (c : chan) : Prop :=
+  hwf (c_dfq c) /\ cap_ok (c_dfq c) /\ NoDup (c_deferred c) /\
+  Permutation (vals (c_dfq c)) (c_deferred c).
+Definition Inv (c : chan) : Prop := InvIF c /\ InvDF c.
+
+(* ------------------------------------------------------------------ the maps *)
+Lemma find_msg_some : forall id l m, find_msg id l = Some m -> In m l /\ m_id m = id.
+Proof.
+  induction l as [|a r IH]; intros m H; cbn in H; [discriminate|].
+  destruct (m_id a =? id) eqn:E.
+  - injection H as <-. split; [now left | lia].
+  - destruct (IH m H). split; [now right | assumption].
+Qed.
+
+Lemma find_msg_none : forall id l, find_msg id l = None -> ~ In id (ids_if l).
+Proof.
+  induction l as [|a r IH]; intros H; cbn in *; [tauto|].
+  destruct (m_id a =? id) eqn:E; [discriminate|]. intros [X|X]; [lia | now apply IH].
+Qed.
+
+Lemma find_msg_in : forall id l, In id (ids_if l) -> exists m, find_msg id l = Some m.
+Proof.
+  induction l as [|a r IH]; intros H; cbn in *; [tauto|].
+  destruct (m_id a =? id) eqn:E; [eauto|]. destruct H as [X|X]; [lia | now apply IH].
+Qed.
+
+Lemma del_msg_perm : forall id l m, find_msg id l = Some m ->
+  Permutation (ids_if l) (id :: ids_if (del_msg id l)).
+Proof.
+  induction l as [|a r IH]; intros m H; cbn in *; [discriminate|].
+  destruct (m_id a =? id) eqn:E.
+  - replace (m_id a) with id by lia. reflexivity.
+  - cbn. etransitivity; [apply perm_skip, (IH m H) | apply perm_swap].
+Qed.
+
+Lemma del_msg_incl : forall id l m, In m (del_msg id l) -> In m l.
+Proof.
+  induction l as [|a r IH]; intros m H; cbn in *; [tauto|].
+  destruct (m_id a =? id); [now right|]. destruct H as [X|X]; [now left | right; now apply IH].
+Qed.
+
+Lemma mem_id_iff : forall id l, mem_id id l = true <-> In id l.
+Proof.
+  intros. unfold mem_id. rewrite existsb_exists. split.
+  - intros [x [A B]]. replace id with x by lia. exact A.
+  - intro H. exists id. split; [exact H | lia].
+Qed.
+
+Lemma del_id_perm : forall id l, In id l -> Permutation l (id :: del_id id l).
+Proof.
+  induction l as [|a r IH]; intros H; cbn in *; [tauto|].
+  destruct (a =? id) eqn:E.
+  - replace a with id by lia. reflexivity.
+  - destruct H as [X|X]; [lia|]. etransitivity; [apply perm_skip, (IH X) | apply perm_swap].
+Qed.
+
+Lemma NoDup_perm_tail : forall (x : Z) l l', NoDup l -> Permutation l (x :: l') ->
+  NoDup l' /\ ~ In x l'.
+Proof.
+  intros x l l' N Pm. assert (N' : NoDup (x :: l')) by (eapply Permutation_NoDup; eauto).
+  inversion N'; auto.
+Qed.
+
+(* ------------------------------------------------------------------ heap entries by id *)
+Lemma vals_perm : forall q q', Permutation (keys (arr q)) (keys (arr q')) -> Permutation (vals q) (vals q').
+Proof. intros. unfold vals. now apply Permutation_map. Qed.
+
+Lemma find_item_pos : forall id l it, find_item id l = Some it ->
+  exists k, (k < length l)%nat /\ get l k = it /\ val it = id.
+Proof.
+  unfold find_item. induction l as [|a r IH]; intros it H; cbn in H; [discriminate|].
+  destruct (val a =? id) eqn:E.
+  - injection H as <-. exists 0%nat. cbn. repeat split; lia.
+  - destruct (IH it H) as [k [A [B C]]]. exists (S k). cbn. repeat split; try lia; assumption.
+Qed.
+
+Lemma find_item_in : forall id l, In id (map snd (keys l)) -> exists it, find_item id l = Some it.
+Proof.
+  unfold find_item. induction l as [|a r IH]; intros H; cbn in *; [tauto|].
+  destruct (val a =? id) eqn:E; [eauto|]. destruct H as [X|X]; [lia | now apply IH].
+Qed.
+
+Lemma removed_vals : forall q i x q', removed q i x q' ->
+  Permutation (vals q) (val x :: vals q').
+Proof.
+  intros q i x q' [_ [_ [Pm _]]]. unfold vals.
+  change (val x :: map snd (keys (arr q'))) with (map snd (key x :: keys (arr q'))).
+  now apply Permutation_map.
+Qed.
+
+Lemma removed_cap_ok_if : forall q i x q', cap_ok q -> if_remove q i = Some (x, q') -> cap_ok q'.
+Proof.
+  intros q i x q' [C1 C2] E. destruct (if_remove_any q i x q' E) as [_ [[_ [_ [_ L]]] _]].
+  assert (cap q' = cap q).
+  { rewrite if_remove_shape in E.
+    destruct ((i <? 0) || (Z.of_nat (length (arr q)) <=? i)); [discriminate|].
+    cbv zeta in E. injection E as _ <-. reflexivity. }
+  split; lia.
+Qed.
+
+(* ------------------------------------------------------------------ popInFlightMessage *)
+Lemma pop_inflight_spec : forall c client id, InvIF c ->
+  match pop_inflight c client id with
+  | PopErr => True
+  | PopBroken => False
+  | PopOk m c1 =>
+      find_msg id (c_inflight c) = Some m /\ m_client m = client /\ m_id m = id /\
+      InvIF c1 /\ c_inflight c1 = del_msg id (c_inflight c) /\
+      c_deferred c1 = c_deferred c /\ c_dfq c1 = c_dfq c /\
+      ~ In id (ids_if (c_inflight c1)) /\
+      (exists k x, removed (c_ifq c) k x (c_ifq c1) /\ val x = id)
+  end.
+Proof.
+  intros c client id [Hq [Cq [Nd Pm]]]. unfold pop_inflight.
+  destruct (find_msg id (c_inflight c)) as [m|] eqn:F; [|exact I].
+  destruct (m_client m =? client) eqn:O; cbn [negb]; [|exact I].
+  destruct (find_msg_some _ _ _ F) as [Min Mid].
+  pose proof (del_msg_perm _ _ _ F) as Dp.
+  assert (Hin : In id (vals (c_ifq c))).
+  { eapply Permutation_in; [apply Permutation_sym, Pm|].
+    eapply Permutation_in; [apply Permutation_sym, Dp|]. now left. }
+  destruct (find_item_in id (arr (c_ifq c)) Hin) as [it Fi]. rewrite Fi.
+  destruct (find_item_pos _ _ _ Fi) as [k [Hk [Gk Vk]]].
+  assert (Ik : idx it = Z.of_nat k) by (rewrite <- Gk; apply Hq; exact Hk).
+  replace (idx it =? -1) with false by lia.
+  destruct (if_remove (c_ifq c) (idx it)) as [[x q']|] eqn:R.
+  2:{ assert (exists r, if_remove (c_ifq c) (idx it) = Some r) as [r Er]
+        by (apply if_remove_defined; lia). congruence. }
+  destruct (if_remove_wf _ _ _ _ Hq R) as [Hq' Rm].
+  rewrite Ik, Nat2Z.id in Rm.
+  assert (Vx : val x = id).
+  { destruct Rm as [K _]. rewrite Gk in K. unfold key in K. injection K as _ K. lia. }
+  pose proof (removed_vals _ _ _ _ Rm) as Pv. rewrite Vx in Pv.
+  destruct (NoDup_perm_tail id _ _ Nd Dp) as [Nd' Nin].
+  repeat split; cbn [c_inflight c_ifq c_deferred c_dfq]; try assumption; try lia; try apply Hq'.
+  - eapply removed_cap_ok_if; eauto.
+  - eapply removed_cap_ok_if; eauto.
+  - apply Permutation_cons_inv with (a := id).
+    etransitivity; [apply Permutation_sym, Pv|]. etransitivity; [exact Pm | exact Dp].
+  - exists k, x. split; assumption.
+Qed.
+
+(* ------------------------------------------------------------------ pushInFlightMessage + heap push *)
+Lemma push_inflight_spec : forall c m p, InvIF c ->
+  match push_inflight c m p with
+  | None => In (m_id m) (ids_if (c_inflight c))
+  | Some c1 =>
+      InvIF c1 /\ c_inflight c1 = m :: c_inflight c /\
+      c_deferred c1 = c_deferred c /\ c_dfq c1 = c_dfq c /\
+      Permutation (keys (arr (c_ifq c1))) ((p, m_id m) :: keys (arr (c_ifq c)))
+  end.
+Proof.
+  intros c m p [Hq [Cq [Nd Pm]]]. unfold push_inflight.
+  destruct (find_msg (m_id m) (c_inflight c)) as [m'|] eqn:F.
+  - destruct (find_msg_some _ _ _ F) as [A B]. rewrite <- B. unfold ids_if. now apply in_map.
+  - destruct (if_push_total (c_ifq c) p (m_id m) Cq) as [q' [E Cq']]. rewrite E.
+    destruct (if_push_wf _ _ _ _ Hq E) as [Hq' Pk].
+    repeat split; cbn [c_inflight c_ifq c_deferred c_dfq]; try assumption; try apply Hq'; try apply Cq'.
+    + cbn. constructor; [now apply find_msg_none | exact Nd].
+    + unfold vals. etransitivity; [apply Permutation_map, Pk|]. cbn. now constructor.
+Qed.
+
+(* ------------------------------------------------------------------ StartDeferredTimeout *)
+Lemma start_deferred_spec : forall c now id delay, InvDF c ->
+  let '(c1, x) := start_deferred c now id delay in
+  x <> Broken /\ InvDF c1 /\ c_inflight c1 = c_inflight c /\ c_ifq c1 = c_ifq c /\
+  (x = Ok -> Permutation (keys (arr (c_dfq c1))) ((now + delay, id) :: keys (arr (c_dfq c)))) /\
+  (x <> Ok -> c1 = c).
+Proof.
+  intros c now id delay [Hq [Cq [Nd Pm]]]. unfold start_deferred.
+  destruct (mem_id id (c_deferred c)) eqn:M.
+  - split; [discriminate|]. split; [exact (conj Hq (conj Cq (conj Nd Pm)))|].
+    split; [reflexivity|]. split; [reflexivity|]. split; [discriminate | reflexivity].
+  - destruct (ch_push_total (c_dfq c) (start_deadline now delay) id Cq) as [q' [E Cq']]. rewrite E.
+    destruct (ch_push_wf _ _ _ _ Hq E) as [Hq' Pk].
+    split; [discriminate|]. split; [|split; [reflexivity|split; [reflexivity|split]]].
+    + split; [exact Hq'|]. split; [exact Cq'|]. cbn [c_deferred c_dfq]. split.
+      * constructor; [|exact Nd]. intro X. apply mem_id_iff in X. congruence.
+      * unfold vals. etransitivity; [apply Permutation_map, Pk|]. cbn. now constructor.
+    + intros _. exact Pk.
+    + intro X. congruence.
+Qed.
+
+(* ------------------------------------------------------------------ capacity through PeekAndShift *)
+Lemma shrink_ok : forall c n, (1 <= c)%nat -> (n <= c)%nat -> (0 < n)%nat ->
+  (1 <= shrink c n)%nat /\ (n - 1 <= shrink c n)%nat.
+Proof.
+  intros c n H1 H2 H3. unfold shrink.
+  destruct ((n <? c / 2)%nat && (25 <? c)%nat) eqn:E; [|lia].
+  apply andb_true_iff in E. destruct E as [A B].
+  apply Nat.ltb_lt in A. apply Nat.ltb_lt in B.
+  assert (12 <= c / 2)%nat by (apply Nat.div_le_lower_bound; lia). lia.
+Qed.
+
+Lemma if_pop_core_cap : forall q, arr q <> [] -> cap (snd (if_pop_core q)) = shrink (cap q) (length (arr q)).
+Proof. intros q _. unfold if_pop_core. cbv zeta. destruct (take_last _). reflexivity. Qed.
+
+Lemma ch_remove_core_cap : forall q i, cap (snd (ch_remove_core q i)) = shrink (cap q) (length (arr q)).
+Proof. intros q i. unfold ch_remove_core. cbv zeta. destruct (take_last _). reflexivity. Qed.
+
+Lemma if_peek_cap_ok : forall q t, cap_ok q -> cap_ok (snd (if_peek q t)).
+Proof.
+  intros q t CO. pose proof CO as [C1 C2]. destruct (if_peek q t) as [[d|x] q'] eqn:E.
+  - unfold if_peek in E. destruct (arr q) as [|a r] eqn:EA.
+    + injection E as _ <-. exact CO.
+    + destruct (pri a >? t); [injection E as _ <-; exact CO|].
+      destruct (if_pop_core q). discriminate.
+  - destruct (if_peek_never_early q t x q' E) as [_ [_ [_ [_ L]]]].
+    assert (Ne : arr q <> []) by (intro X; rewrite X in L; cbn in L; lia).
+    assert (Cq : cap q' = shrink (cap q) (length (arr q))).
+    { pose proof (if_pop_core_cap q Ne) as X.
+      unfold if_peek in E. destruct (arr q) as [|a r] eqn:EA; [congruence|].
+      destruct (pri a >? t); [discriminate|].
+      destruct (if_pop_core q) as [y q1].
+      injection E as _ <-. exact X. }
+    cbn [snd]. destruct (shrink_ok (cap q) (length (arr q)) C1 C2 ltac:(lia)). split; lia.
+Qed.
+
+Lemma ch_peek_cap_ok : forall q t, cap_ok q -> cap_ok (snd (ch_peek q t)).
+Proof.
+  intros q t CO. pose proof CO as [C1 C2]. destruct (ch_peek q t) as [[d|x] q'] eqn:E.
+  - unfold ch_peek in E. destruct (arr q) as [|a r] eqn:EA.
+    + injection E as _ <-. exact CO.
+    + destruct (pri a >? t); [injection E as _ <-; exact CO|].
+      destruct (ch_remove_core q 0). discriminate.
+  - destruct (ch_peek_never_early q t x q' E) as [_ [_ [_ [_ L]]]].
+    assert (Cq : cap q' = shrink (cap q) (length (arr q))).
+    { pose proof (ch_remove_core_cap q 0) as X.
+      unfold ch_peek in E. destruct (arr q) as [|a r] eqn:EA; [discriminate|].
+      destruct (pri a >? t); [discriminate|].
+      destruct (ch_remove_core q 0) as [y q1].
+      injection E as _ <-. exact X. }
+    cbn [snd]. destruct (shrink_ok (cap q) (length (arr q)) C1 C2 ltac:(lia)). split; lia.
+Qed.
+
+(* ------------------------------------------------------------------ the scan loops of the channel *)
+(* with map and heap in step, the channel's loop is the queue's scan and keeps them in step *)
+Lemma scan_inflight_spec : forall f mp q t,
+  hwf q -> cap_ok q -> NoDup (ids_if mp) -> Permutation (vals q) (ids_if mp) ->
+  let '(mp', q', ids) := scan_inflight f mp q t in
+  q' = snd (scan if_peek f q t) /\ ids = map val (fst (scan if_peek f q t)) /\
+  hwf q' /\ cap_ok q' /\ NoDup (ids_if mp') /\ Permutation (vals q') (ids_if mp') /\
+  (forall m, In m mp' -> In m mp).
+Proof.
+  induction f as [|f IH]; intros mp q t Hq Cq Nd Pm; cbn [scan_inflight scan].
+  - repeat split; auto; try apply Hq; try apply Cq.
+  - pose proof (if_peek_spec q t Hq) as Sp. pose proof (if_peek_cap_ok q t Cq) as Cp.
+    destruct (if_peek q t) as [[d|x] q1] eqn:Pk; cbn [snd] in Cp.
+    + destruct Sp as [-> _]. repeat split; auto; try apply Hq; try apply Cq.
+    + destruct Sp as [Hq1 _].
+      destruct (if_peek_never_early q t x q1 Pk) as [_ Rm].
+      pose proof (removed_vals _ _ _ _ Rm) as Pv.
+      assert (Hin : In (val x) (ids_if mp)).
+      { eapply Permutation_in; [exact Pm|]. eapply Permutation_in; [apply Permutation_sym, Pv|]. now left. }
+      destruct (find_msg_in _ _ Hin) as [m F]. rewrite F.
+      pose proof (del_msg_perm _ _ _ F) as Dp.
+      destruct (NoDup_perm_tail _ _ _ Nd Dp) as [Nd' _].
+      assert (Pm' : Permutation (vals q1) (ids_if (del_msg (val x) mp))).
+      { apply Permutation_cons_inv with (a := val x).
+        etransitivity; [apply Permutation_sym, Pv|]. etransitivity; [exact Pm | exact Dp]. }
+      specialize (IH (del_msg (val x) mp) q1 t Hq1 Cp Nd' Pm').
+      destruct (scan_inflight f (del_msg (val x) mp) q1 t) as [[mp2 q2] ids2].
+      destruct (scan if_peek f q1 t) as [o q3]. cbn [fst snd] in *.
+      destruct IH as [A [B [C [D [E [F' G]]]]]].
+      repeat split; auto; try apply C; try apply D.
+      * now rewrite B.
+      * intros m' Hm'. eapply del_msg_incl, G, Hm'.
+Qed.
+
+Lemma scan_deferred_spec : forall f mp q t,
+  hwf q -> cap_ok q -> NoDup mp -> Permutation (vals q) mp ->
+  let '(mp', q', ids) := scan_deferred f mp q t in
+  q' = snd (scan ch_peek f q t) /\ ids = map val (fst (scan ch_peek f q t)) /\
+  hwf q' /\ cap_ok q' /\ NoDup mp' /\ Permutation (vals q') mp'.
+Proof.
+  induction f as [|f IH]; intros mp q t Hq Cq Nd Pm; cbn [scan_deferred scan].
+  - repeat split; auto; try apply Hq; try apply Cq.
+  - pose proof (ch_peek_spec q t Hq) as Sp. pose proof (ch_peek_cap_ok q t Cq) as Cp.
+    destruct (ch_peek q t) as [[d|x] q1] eqn:Pk; cbn [snd] in Cp.
+    + destruct Sp as [-> _]. repeat split; auto; try apply Hq; try apply Cq.
+    + destruct Sp as [Hq1 _].
+      destruct (ch_peek_never_early q t x q1 Pk) as [_ Rm].
+      pose proof (removed_vals _ _ _ _ Rm) as Pv.
+      assert (Hin : In (val x) mp).
+      { eapply Permutation_in; [exact Pm|]. eapply Permutation_in; [apply Permutation_sym, Pv|]. now left. }
+      replace (mem_id (val x) mp) with true by (symmetry; now apply mem_id_iff).
+      pose proof (del_id_perm _ _ Hin) as Dp.
+      destruct (NoDup_perm_tail _ _ _ Nd Dp) as [Nd' _].
+      assert (Pm' : Permutation (vals q1) (del_id (val x) mp)).
+      { apply Permutation_cons_inv with (a := val x).
+        etransitivity; [apply Permutation_sym, Pv|]. etransitivity; [exact Pm | exact Dp]. }
+      specialize (IH (del_id (val x) mp) q1 t Hq1 Cp Nd' Pm').
+      destruct (scan_deferred f (del_id (val x) mp) q1 t) as [[mp2 q2] ids2].
+      destruct (scan ch_peek f q1 t) as [o q3]. cbn [fst snd] in *.
+      destruct IH as [A [B [C [D [E F']]]]].
+      repeat split; auto; try apply C; try apply D. now rewrite B.
+Qed.
+
+(* ------------------------------------------------------------------ every step keeps the invariant *)
+Lemma InvDF_ext : forall c c1, c_deferred c1 = c_deferred c -> c_dfq c1 = c_dfq c -> InvDF c -> InvDF c1.
+Proof. intros c c1 A B H. unfold InvDF in *. now rewrite A, B. Qed.
+Lemma InvIF_ext : forall c c1, c_inflight c1 = c_inflight c -> c_ifq c1 = c_ifq c -> InvIF c -> InvIF c1.
+Proof. intros c c1 A B H. unfold InvIF in *. now rewrite A, B. Qed.
+
+Theorem inv_empty : forall capacity, (1 <= capacity)%nat -> Inv (empty_chan capacity).
+Proof.
+  intros capacity H. unfold empty_chan.
+  assert (E : hwf (mkPq [] capacity)) by (split; intros k Hk; cbn in Hk; lia).
+  assert (C : cap_ok (mkPq [] capacity)) by (split; cbn; lia).
+  split; (split; [exact E|]; split; [exact C|]; split; [constructor | reflexivity]).
+Qed.
+
+Section MachineProofs.
+Variable max_msg : Z.
+
+Theorem step_inv : forall c o, Inv c ->
+  Inv (fst (step max_msg c o)) /\ snd (step max_msg c o) <> Broken.
+Proof.
+  intros c o [HI HD]. destruct o as [now id cl timeout|now id cl mt|id cl|now id cl delay|now id delay|t|t];
+    cbn [step].
+  - (* StartInFlightTimeout *)
+    pose proof (push_inflight_spec c (mkMsg id cl now) (start_deadline now timeout) HI) as S.
+    destruct (push_inflight c _ _) as [c1|]; cbn [fst snd].
+    + destruct S as [A [_ [B [C _]]]]. split; [split; [exact A | eapply InvDF_ext; eauto] | discriminate].
+    + split; [split; assumption | discriminate].
+  - (* TouchMessage *)
+    pose proof (pop_inflight_spec c cl id HI) as S.
+    destruct (pop_inflight c cl id) as [| |m c1]; cbn [fst snd]; [split; [split; assumption|discriminate] | contradiction |].
+    destruct S as [_ [_ [Mid [HI1 [_ [D1 [D2 [Nin _]]]]]]]].
+    pose proof (push_inflight_spec c1 m (touch_deadline now mt (m_delivery m) max_msg) HI1) as S2.
+    destruct (push_inflight c1 m _) as [c2|]; cbn [fst snd].
+    + destruct S2 as [A [_ [B [C _]]]].
+      split; [split; [exact A | eapply InvDF_ext; [| |exact HD]; congruence] | discriminate].
+    + rewrite Mid in S2. contradiction.
+  - (* FinishMessage *)
+    pose proof (pop_inflight_spec c cl id HI) as S.
+    destruct (pop_inflight c cl id) as [| |m c1]; cbn [fst snd]; [split; [split; assumption|discriminate] | contradiction |].
+    destruct S as [_ [_ [_ [HI1 [_ [D1 [D2 _]]]]]]].
+    split; [split; [exact HI1 | eapply InvDF_ext; eauto] | discriminate].
+  - (* RequeueMessage *)
+    pose proof (pop_inflight_spec c cl id HI) as S.
+    destruct (pop_inflight c cl id) as [| |m c1]; cbn [fst snd]; [split; [split; assumption|discriminate] | contradiction |].
+    destruct S as [_ [_ [_ [HI1 [_ [D1 [D2 _]]]]]]].
+    assert (HD1 : InvDF c1) by (eapply InvDF_ext; eauto).
+    destruct (delay =? 0); cbn [fst snd]; [split; [split; assumption | discriminate]|].
+    pose proof (start_deferred_spec c1 now id delay HD1) as S2.
+    destruct (start_deferred c1 now id delay) as [c2 x]. cbn [fst snd].
+    destruct S2 as [NB [HD2 [E1 [E2 _]]]].
+    split; [split; [eapply InvIF_ext; eauto | exact HD2] | exact NB].
+  - (* PutMessageDeferred *)
+    pose proof (start_deferred_spec c now id delay HD) as S2.
+    destruct (start_deferred c now id delay) as [c2 x]. cbn [fst snd].
+    destruct S2 as [NB [HD2 [E1 [E2 _]]]].
+    split; [split; [eapply InvIF_ext; eauto | exact HD2] | exact NB].
+  - (* processInFlightQueue *)
+    destruct HI as [Hq [Cq [Nd Pm]]].
+    pose proof (scan_inflight_spec (S (length (arr (c_ifq c)))) (c_inflight c) (c_ifq c) t Hq Cq Nd Pm) as S.
+    destruct (scan_inflight _ _ _ _) as [[mp q'] ids]. cbn [fst snd].
+    destruct S as [_ [_ [A [B [C [D _]]]]]].
+    split; [split; [repeat split; cbn; try assumption; try apply A; try apply B | exact HD] | discriminate].
+  - (* processDeferredQueue *)
+    destruct HD as [Hq [Cq [Nd Pm]]].
+    pose proof (scan_deferred_spec (S (length (arr (c_dfq c)))) (c_deferred c) (c_dfq c) t Hq Cq Nd Pm) as S.
+    destruct (scan_deferred _ _ _ _) as [[mp q'] ids]. cbn [fst snd].
+    destruct S as [_ [_ [A [B [C D]]]]].
+    split; [split; [exact HI | repeat split; cbn; try assumption; try apply A; try apply B] | discriminate].
+Qed.
+
+(* ... hence every history from the empty channel: no step is ever Broken (no Go panic,
+   map and heap never out of step), and the invariant holds at every state *)
+Theorem run_inv : forall ops c, Inv c ->
+  Inv (fst (run max_msg c ops)) /\ ~ In Broken (snd (run max_msg c ops)).
+Proof.
+  induction ops as [|o r IH]; intros c H; cbn [run].
+  - split; [exact H | intros []].
+  - destruct (step_inv c o H) as [H1 NB].
+    destruct (step max_msg c o) as [c1 x]. cbn [fst snd] in *.
+    destruct (IH c1 H1) as [H2 NB2]. destruct (run max_msg c1 r) as [c2 xs]. cbn [fst snd] in *.
+    split; [exact H2|]. intros [X|X]; [now apply NB | now apply NB2].
+Qed.
+
+End MachineProofs.
+
+(* ------------------------------------------------------------------ never early / exactly the due ones, at the channel *)
+(* whatever the state (no invariant needed): every message a timeout scan at t puts back on
+   the queue had a heap entry with deadline <= t *)
+Theorem scan_inflight_never_early : forall f mp q t,
+  let '(_, _, ids) := scan_inflight f mp q t in
+  forall id, In id ids -> exists p, In (p, id) (keys (arr q)) /\ p <= t.
+Proof.
+  induction f as [|f IH]; intros mp q t; cbn [scan_inflight]; [intros id []|].
+  destruct (if_peek q t) as [[d|x] q1] eqn:Pk; [intros id []|].
+  destruct (if_peek_never_early q t x q1 Pk) as [Le Rm].
+  destruct (find_msg (val x) mp); [|intros id []].
+  specialize (IH (del_msg (val x) mp) q1 t).
+  destruct (scan_inflight f (del_msg (val x) mp) q1 t) as [[mp2 q2] ids2].
+  destruct Rm as [K [_ [Pm _]]].
+  intros id [<-|Hin].
+  - exists (pri x). split; [|exact Le].
+    eapply Permutation_in; [apply Permutation_sym, Pm|]. now left.
+  - destruct (IH id Hin) as [p [A B]]. exists p. split; [|exact B].
+    eapply Permutation_in; [apply Permutation_sym, Pm|]. now right.
+Qed.
+
+Theorem scan_deferred_never_early : forall f mp q t,
+  let '(_, _, ids) := scan_deferred f mp q t in
+  forall id, In id ids -> exists p, In (p, id) (keys (arr q)) /\ p <= t.
+Proof.
+  induction f as [|f IH]; intros mp q t; cbn [scan_deferred]; [intros id []|].
+  destruct (ch_peek q t) as [[d|x] q1] eqn:Pk; [intros id []|].
+  destruct (ch_peek_never_early q t x q1 Pk) as [Le Rm].
+  destruct (mem_id (val x) mp); [|intros id []].
+  specialize (IH (del_id (val x) mp) q1 t).
+  destruct (scan_deferred f (del_id (val x) mp) q1 t) as [[mp2 q2] ids2].
+  destruct Rm as [K [_ [Pm _]]].
+  intros id [<-|Hin].
+  - exists (pri x). split; [|exact Le].
+    eapply Permutation_in; [apply Permutation_sym, Pm|]. now left.
+  - destruct (IH id Hin) as [p [A B]]. exists p. split; [|exact B].
+    eapply Permutation_in; [apply Permutation_sym, Pm|]. now right.
+Qed.
+
+Lemma map_snd_keys : forall l, map snd (keys l) = map val l.
+Proof. intro l. unfold keys. rewrite map_map. reflexivity. Qed.
+
+Section MachineProofs2.
+Variable max_msg : Z.
+
+(* with the invariant: one timeout scan at t releases EXACTLY the in-flight messages whose
+   deadline is <= t, and exactly the others stay in flight *)
+Theorem scan_inflight_exact : forall c t, Inv c ->
+  exists ids, snd (step max_msg c (ScanInFlight t)) = Ready ids /\
+  let c' := fst (step max_msg c (ScanInFlight t)) in
+  Permutation ids (map snd (filter (due t) (keys (arr (c_ifq c))))) /\
+  Permutation (keys (arr (c_ifq c'))) (filter (not_due t) (keys (arr (c_ifq c)))) /\
+  Permutation (ids_if (c_inflight c')) (map snd (filter (not_due t) (keys (arr (c_ifq c))))).
+Proof.
+  intros c t [[Hq [Cq [Nd Pm]]] _]. cbn [step].
+  pose proof (scan_inflight_spec (S (length (arr (c_ifq c)))) (c_inflight c) (c_ifq c) t Hq Cq Nd Pm) as S.
+  destruct (scan_inflight _ _ _ _) as [[mp q'] ids]. cbn [fst snd c_ifq c_inflight].
+  destruct S as [Eq [Ei [_ [_ [_ [Pm' _]]]]]].
+  destruct (scan if_peek (S (length (arr (c_ifq c)))) (c_ifq c) t) as [outs q''] eqn:Sc. cbn [fst snd] in *.
+  destruct (if_scan_complete (c_ifq c) t outs q'' Hq Sc) as [A [B _]].
+  exists ids. split; [reflexivity|]. subst q' ids. split; [|split].
+  - rewrite <- map_snd_keys. now apply Permutation_map.
+  - exact B.
+  - etransitivity; [apply Permutation_sym, Pm'|]. unfold vals. now apply Permutation_map.
+Qed.
+
+Theorem scan_deferred_exact : forall c t, Inv c ->
+  exists ids, snd (step max_msg c (ScanDeferred t)) = Ready ids /\
+  let c' := fst (step max_msg c (ScanDeferred t)) in
+  Permutation ids (map snd (filter (due t) (keys (arr (c_dfq c))))) /\
+  Permutation (keys (arr (c_dfq c'))) (filter (not_due t) (keys (arr (c_dfq c)))) /\
+  Permutation (c_deferred c') (map snd (filter (not_due t) (keys (arr (c_dfq c))))).
+Proof.
+  intros c t [_ [Hq [Cq [Nd Pm]]]]. cbn [step].
+  pose proof (scan_deferred_spec (S (length (arr (c_dfq c)))) (c_deferred c) (c_dfq c) t Hq Cq Nd Pm) as S.
+  destruct (scan_deferred _ _ _ _) as [[mp q'] ids]. cbn [fst snd c_dfq c_deferred].
+  destruct S as [Eq [Ei [_ [_ [_ Pm']]]]].
+  destruct (scan ch_peek (S (length (arr (c_dfq c)))) (c_dfq c) t) as [outs q''] eqn:Sc. cbn [fst snd] in *.
+  destruct (ch_scan_complete (c_dfq c) t outs q'' Hq Sc) as [A [B _]].
+  exists ids. split; [reflexivity|]. subst q' ids. split; [|split].
+  - rewrite <- map_snd_keys. now apply Permutation_map.
+  - exact B.
+  - etransitivity; [apply Permutation_sym, Pm'|]. unfold vals. now apply Permutation_map.
+Qed.
+
+(* ------------------------------------------------------------------ which deadline an operation sets *)
+Lemma unique_deadline : forall q p p' id, NoDup (vals q) ->
+  In (p, id) (keys (arr q)) -> In (p', id) (keys (arr q)) -> p = p'.
+Proof.
+  intros q p p' id. unfold vals. induction (keys (arr q)) as [|[a b] r IH]; intros N A B; [destruct A|].
+  cbn in N. inversion N as [|? ? Nin N']. subst.
+  destruct A as [A|A]; destruct B as [B|B].
+  - congruence.
+  - injection A as -> ->. exfalso. apply Nin. now apply (in_map snd) in B.
+  - injection B as -> ->. exfalso. apply Nin. now apply (in_map snd) in A.
+  - now apply IH.
+Qed.
+
+Lemma inv_vals_nodup : forall c, Inv c -> NoDup (vals (c_ifq c)) /\ NoDup (vals (c_dfq c)).
+Proof.
+  intros c [[_ [_ [N1 P1]]] [_ [_ [N2 P2]]]].
+  split; eapply Permutation_NoDup; [apply Permutation_sym, P1 | exact N1 | apply Permutation_sym, P2 | exact N2].
+Qed.
+
+(* StartInFlightTimeout: deadline = now + timeout, deliveryTS = now *)
+Theorem start_sets_deadline : forall c now id cl timeout c', Inv c ->
+  step max_msg c (StartInFlight now id cl timeout) = (c', Ok) ->
+  In (now + timeout, id) (keys (arr (c_ifq c'))) /\ In (mkMsg id cl now) (c_inflight c').
+Proof.
+  intros c now id cl timeout c' [HI _] E. cbn [step] in E.
+  pose proof (push_inflight_spec c (mkMsg id cl now) (start_deadline now timeout) HI) as S.
+  destruct (push_inflight c _ _) as [c1|]; [|discriminate]. injection E as <-.
+  destruct S as [_ [A [_ [_ B]]]]. split.
+  - eapply Permutation_in; [apply Permutation_sym, B|]. now left.
+  - rewrite A. now left.
+Qed.
+
+(* TouchMessage: deadline = min(now + msg_timeout, deliveryTS + max-msg-timeout) *)
+Theorem touch_sets_deadline : forall c now id cl mt c', Inv c ->
+  step max_msg c (Touch now id cl mt) = (c', Ok) ->
+  exists m, find_msg id (c_inflight c) = Some m /\ m_client m = cl /\
+    In (Z.min (now + mt) (m_delivery m + max_msg), id) (keys (arr (c_ifq c'))) /\
+    In m (c_inflight c').
+Proof.
+  intros c now id cl mt c' [HI _] E. cbn [step] in E.
+  pose proof (pop_inflight_spec c cl id HI) as S.
+  destruct (pop_inflight c cl id) as [| |m c1]; try discriminate; try contradiction.
+  destruct S as [F [O [Mid [HI1 _]]]].
+  pose proof (push_inflight_spec c1 m (touch_deadline now mt (m_delivery m) max_msg) HI1) as S2.
+  destruct (push_inflight c1 m _) as [c2|]; [|discriminate]. injection E as <-.
+  destruct S2 as [_ [A [_ [_ B]]]]. exists m. repeat split; try assumption.
+  - rewrite <- touch_deadline_min, <- Mid.
+    eapply Permutation_in; [apply Permutation_sym, B|]. now left.
+  - rewrite A. now left.
+Qed.
+
+(* a deferred publish / a delayed requeue: release time = now + delay *)
+Theorem putdef_sets_deadline : forall c now id delay c', Inv c ->
+  step max_msg c (PutDeferred now id delay) = (c', Ok) ->
+  In (now + delay, id) (keys (arr (c_dfq c'))).
+Proof.
+  intros c now id delay c' [_ HD] E. cbn [step] in E.
+  pose proof (start_deferred_spec c now id delay HD) as S. rewrite E in S.
+  destruct S as [_ [_ [_ [_ [B _]]]]].
+  eapply Permutation_in; [apply Permutation_sym, B; reflexivity|]. now left.
+Qed.
+
+Theorem requeue_sets_deadline : forall c now id cl delay c', Inv c -> delay <> 0 ->
+  step max_msg c (Requeue now id cl delay) = (c', Ok) ->
+  In (now + delay, id) (keys (arr (c_dfq c'))).
+Proof.
+  intros c now id cl delay c' [HI HD] Nz E. cbn [step] in E.
+  pose proof (pop_inflight_spec c cl id HI) as S.
+  destruct (pop_inflight c cl id) as [| |m c1]; try discriminate; try contradiction.
+  destruct S as [_ [_ [_ [_ [_ [D1 [D2 _]]]]]]].
+  replace (delay =? 0) with false in E by lia.
+  assert (HD1 : InvDF c1) by (eapply InvDF_ext; eauto).
+  pose proof (start_deferred_spec c1 now id delay HD1) as S. rewrite E in S.
+  destruct S as [_ [_ [_ [_ [B _]]]]].
+  eapply Permutation_in; [apply Permutation_sym, B; reflexivity|]. now left.
+Qed.
+
+(* ------------------------------------------------------------------ the TOUCH cap as a state invariant *)
+Definition Capped (c : chan) : Prop :=
+  forall p v m, In (p, v) (keys (arr (c_ifq c))) -> In m (c_inflight c) -> m_id m = v ->
+    p <= m_delivery m + max_msg.
+
+Definition op_ok (o : op) : Prop :=
+  match o with StartInFlight _ _ _ timeout => timeout <= max_msg | _ => True end.
+
+Lemma pop_capped : forall c cl id m c1, InvIF c -> Capped c ->
+  pop_inflight c cl id = PopOk m c1 -> Capped c1.
+Proof.
+  intros c cl id m c1 HI Cp E. pose proof (pop_inflight_spec c cl id HI) as S. rewrite E in S.
+  destruct S as [_ [_ [_ [_ [Dl [_ [_ [_ [k [x [[_ [_ [Pm _]]] _]]]]]]]]]]].
+  intros p v m' A B C. apply (Cp p v m'); [|rewrite Dl in B; eapply del_msg_incl; eauto|exact C].
+  eapply Permutation_in; [apply Permutation_sym, Pm|]. now right.
+Qed.
+
+Lemma push_capped : forall c m p c1, InvIF c -> Capped c -> p <= m_delivery m + max_msg ->
+  push_inflight c m p = Some c1 -> Capped c1.
+Proof.
+  intros c m p c1 HI Cp Hp E. pose proof (push_inflight_spec c m p HI) as S. rewrite E in S.
+  destruct S as [[_ [_ [Nd _]]] [A [_ [_ B]]]]. rewrite A in Nd. cbn in Nd.
+  inversion Nd as [|? ? Nin _]. subst.
+  destruct HI as [_ [_ [_ Pm]]].
+  intros p' v m' X Y Z. rewrite A in Y.
+  apply (Permutation_in _ B) in X.
+  destruct X as [X|X]; destruct Y as [Y|Y].
+  - injection X as <- <-. subst m'. exact Hp.
+  - injection X as <- <-. exfalso. apply Nin. rewrite <- Z. unfold ids_if. now apply in_map.
+  - subst m'. exfalso. apply Nin. eapply Permutation_in; [exact Pm|].
+    unfold vals. rewrite Z. change v with (snd (p', v)). now apply in_map.
+  - now apply (Cp p' v m').
+Qed.
+
+Theorem step_capped : forall c o, Inv c -> Capped c -> op_ok o -> Capped (fst (step max_msg c o)).
+Proof.
+  intros c o [HI HD] Cp Ok.
+  destruct o as [now id cl timeout|now id cl mt|id cl|now id cl delay|now id delay|t|t]; cbn [step].
+  - destruct (push_inflight c _ _) as [c1|] eqn:E; cbn [fst]; [|exact Cp].
+    eapply push_capped; [exact HI | exact Cp | | exact E]. cbn in *. unfold start_deadline. lia.
+  - pose proof (pop_inflight_spec c cl id HI) as S.
+    destruct (pop_inflight c cl id) as [| |m c1] eqn:E; cbn [fst]; try exact Cp.
+    destruct S as [_ [_ [_ [HI1 _]]]].
+    pose proof (pop_capped _ _ _ _ _ HI Cp E) as Cp1.
+    destruct (push_inflight c1 m _) as [c2|] eqn:E2; cbn [fst]; [|exact Cp1].
+    eapply push_capped; [exact HI1 | exact Cp1 | apply touch_deadline_cap | exact E2].
+  - destruct (pop_inflight c cl id) as [| |m c1] eqn:E; cbn [fst]; try exact Cp.
+    eapply pop_capped; eauto.
+  - pose proof (pop_inflight_spec c cl id HI) as S.
+    destruct (pop_inflight c cl id) as [| |m c1] eqn:E; cbn [fst]; try exact Cp.
+    pose proof (pop_capped _ _ _ _ _ HI Cp E) as Cp1.
+    destruct (delay =? 0); cbn [fst]; [exact Cp1|].
+    destruct S as [_ [_ [_ [_ [_ [D1 [D2 _]]]]]]].
+    assert (HD1 : InvDF c1) by (eapply InvDF_ext; eauto).
+    pose proof (start_deferred_spec c1 now id delay HD1) as S2.
+    destruct (start_deferred c1 now id delay) as [c2 x]. cbn [fst].
+    destruct S2 as [_ [_ [E1 [E2 _]]]]. unfold Capped in *. now rewrite E1, E2.
+  - pose proof (start_deferred_spec c now id delay HD) as S2.
+    destruct (start_deferred c now id delay) as [c2 x]. cbn [fst].
+    destruct S2 as [_ [_ [E1 [E2 _]]]]. unfold Capped in *. now rewrite E1, E2.
+  - destruct HI as [Hq [Cq [Nd Pm]]].
+    pose proof (scan_inflight_spec (S (length (arr (c_ifq c)))) (c_inflight c) (c_ifq c) t Hq Cq Nd Pm) as S.
+    destruct (scan_inflight _ _ _ _) as [[mp q'] ids]. cbn [fst].
+    destruct S as [Eq [_ [_ [_ [_ [_ Sub]]]]]].
+    destruct (scan if_peek (S (length (arr (c_ifq c)))) (c_ifq c) t) as [outs q''] eqn:Sc. cbn [snd] in Eq.
+    destruct (if_scan_complete (c_ifq c) t outs q'' Hq Sc) as [_ [B _]]. subst q'.
+    intros p v m A B' C. cbn [c_ifq c_inflight] in *.
+    apply (Cp p v m); [|now apply Sub|exact C].
+    apply (Permutation_in _ B) in A. apply filter_In in A. tauto.
+  - destruct (scan_deferred _ _ _ _) as [[mp q'] ids]. cbn [fst]. exact Cp.
+Qed.
+
+(* every history from a state satisfying the invariants, with every negotiated
+   msg_timeout <= max-msg-timeout: at every state every in-flight deadline is
+   <= deliveryTS + max-msg-timeout, whatever the TOUCH pattern *)
+Theorem run_capped : forall ops c, Inv c -> Capped c -> Forall op_ok ops ->
+  Capped (fst (run max_msg c ops)).
+Proof.
+  induction ops as [|o r IH]; intros c H Cp Ok; cbn [run]; [exact Cp|].
+  inversion Ok as [|? ? O1 O2]. subst.
+  pose proof (step_capped c o H Cp O1) as Cp1. destruct (step_inv max_msg c o H) as [H1 _].
+  destruct (step max_msg c o) as [c1 x]. cbn [fst] in *.
+  specialize (IH c1 H1 Cp1 O2). destruct (run max_msg c1 r) as [c2 xs]. exact IH.
+Qed.
+
+Lemma capped_empty : forall capacity, Capped (empty_chan capacity).
+Proof. intros capacity p v m []. Qed.
+
+End MachineProofs2.
+
+(* ------------------------------------------------------------------ from the empty channel *)
+Theorem reachable_inv : forall max_msg capacity ops, (1 <= capacity)%nat ->
+  Inv (fst (run max_msg (empty_chan capacity) ops)) /\
+  ~ In Broken (snd (run max_msg (empty_chan capacity) ops)).
+Proof. intros. apply run_inv, inv_empty. assumption. Qed.
+
+Theorem reachable_capped : forall max_msg capacity ops, (1 <= capacity)%nat ->
+  Forall (op_ok max_msg) ops -> Capped max_msg (fst (run max_msg (empty_chan capacity) ops)).
+Proof. intros. apply run_capped; [now apply inv_empty | apply capped_empty | assumption]. Qed.
